@@ -80,5 +80,9 @@ func (c *Config) ParseArgs() error {
 	c.DryRun = *dryRun
 	c.Prints = *prints
 
+	if c.Log != "" && c.Log == c.Output {
+		// The log is opened (and truncated) before anything else happens, also in a dry or failing run.
+		return fmt.Errorf("%v: the log file would replace the output file; choose another -out", c.Output)
+	}
 	return nil
 }
